@@ -186,6 +186,11 @@ SrcReq(src, ct, hk) ==
       rv  == CASE src = "rule1" -> <<"b">> [] src = "rule_nested" -> <<"n.s">> [] src = "rule_repeated" -> <<"items.s">>
                [] src = "rule_map" -> <<"m.s">> [] src = "rule_two" -> <<"b", "n.s">> [] OTHER -> <<>>
       h   == CASE src = "plain" -> [kind |-> "plain", msg |-> "boom", val |-> "", viol |-> <<>>]
+               \* errors of the built-in classes a handler lets escape (JSON.parse of an upstream payload, new RegExp,
+               \* BigInt): the driver throws the class the message names; to the contract they are plain errors
+               [] src = "plain_syntax" -> [kind |-> "plain", msg |-> "SyntaxError: boom", val |-> "", viol |-> <<>>]
+               [] src = "plain_type" -> [kind |-> "plain", msg |-> "TypeError: boom", val |-> "", viol |-> <<>>]
+               [] src = "plain_range" -> [kind |-> "plain", msg |-> "RangeError: boom", val |-> "", viol |-> <<>>]
                [] src = "sebufError" -> [kind |-> "sebufError", msg |-> "boom", val |-> "", viol |-> <<>>]
                [] src = "validationError" -> [kind |-> "validationError", msg |-> "", val |-> "", viol |-> <<"a.b", "c">>]
                [] src = "custom" -> [kind |-> "custom", msg |-> "", val |-> "CUSTOM", viol |-> <<>>]
@@ -196,7 +201,7 @@ SrcReq(src, ct, hk) ==
 RenamedUrlReq(qc, rqc, ct) == LET r == SrcReq("url", ct, NoHook) IN [r EXCEPT !.rpc = Renamed(r.rpc), !.url = Url("good", qc, rqc)]
 \* the TS server (JSON only; handlers return a value or throw an Error / a ValidationError; the validateRequest
 \* option reports rule violations; the onError option returns a whole Response: a hook that "writes the body")
-TsSources == {"header", "rule1", "rule_two", "plain", "validationError", "ok"}
+TsSources == {"header", "rule1", "rule_two", "plain", "plain_syntax", "plain_type", "plain_range", "validationError", "ok"}
 TsHooks == {h \in HooksN : h.on => (h.body /\ ~h.msg)}
 C10TsRequests == { [SrcReq(s, "json", hk) EXCEPT !.server = "ts"] : s \in TsSources, hk \in TsHooks }
 C10Requests == { SrcReq(s, ct, hk) : s \in Sources, ct \in {"json", "proto", "octet"}, hk \in HooksN } \cup C10TsRequests
